@@ -5,8 +5,10 @@ import (
 	"context"
 	"encoding/json"
 	"fmt"
+	"io"
 	"net/http"
 	"net/http/httptest"
+	"sync"
 	"time"
 
 	"verif/gqlref"
@@ -110,11 +112,15 @@ type Fed struct {
 	// GWSchema is the schema object the gateway itself validates with (captured from its merger);
 	// read-only for the harness
 	GWSchema *ast.Schema
-	sp     *swapPlanner
-	docs   map[string]*ast.QueryDocument
+	sp       *swapPlanner
+	docs     map[string]*ast.QueryDocument
 	// Guard, if set, is asked before every downstream call with the planning context of the
 	// queryer that makes it (Engine B: calls on behalf of a closed client connection fail)
 	Guard func(pc *planner.PlanningContext, url string) error
+	// RecordBound: every call through a queryer is noted together with the client operation the queryer was made for
+	RecordBound bool
+	boundMu     sync.Mutex
+	BoundLog    []BoundCall
 }
 
 // NewFed merges the world's schemas with the real merger and builds the real gateway
@@ -214,7 +220,29 @@ type boundTransport struct {
 	url string
 }
 
+// BoundCall: the sub-requests of one downstream call and the document of the client operation whose queryer carried them
+type BoundCall struct {
+	OpQuery string
+	Subs    []string
+}
+
 func (b *boundTransport) RoundTrip(r *http.Request) (*http.Response, error) {
+	if b.f.RecordBound && r.Body != nil {
+		body, _ := io.ReadAll(r.Body)
+		r.Body = io.NopCloser(bytes.NewReader(body))
+		var reqs []struct {
+			Query string `json:"query"`
+		}
+		if json.Unmarshal(body, &reqs) == nil {
+			bc := BoundCall{OpQuery: b.pc.Request.Query}
+			for _, q := range reqs {
+				bc.Subs = append(bc.Subs, q.Query)
+			}
+			b.f.boundMu.Lock()
+			b.f.BoundLog = append(b.f.BoundLog, bc)
+			b.f.boundMu.Unlock()
+		}
+	}
 	if b.f.Guard != nil {
 		if err := b.f.Guard(b.pc, b.url); err != nil {
 			return nil, err
